@@ -239,6 +239,16 @@ def splitT (cur dest splitPoint : P α) : α :=
   if abs (dest.y - cur.y) < abs (dest.x - cur.x) then solveTForX cur dest splitPoint.x
   else solveTForY cur dest splitPoint.y
 
+/-- the split parameter of `process_edges_above` (`edges_to_split`) since lyon fix "split parameters stay
+inside the edge": along the larger extent of the edge, but along x only when that parameter is in `[0,1]`
+(`is_edge_connecting` accepts a vertex up to the threshold beyond the x-extent of a flat edge); otherwise
+at the vertex's own y, clamped (`solve_t_for_y(..).max(0.0).min(1.0)`) -/
+def splitTAtVertex (from_ to cur : P α) : α :=
+  if abs (to.y - from_.y) < abs (to.x - from_.x) then
+    (if zero ≤ solveTForX from_ to cur.x ∧ solveTForX from_ to cur.x ≤ one then solveTForX from_ to cur.x
+     else Scalar.min (Scalar.max (solveTForY from_ to cur.y) zero) one)
+  else solveTForY from_ to cur.y
+
 /-- `process_edges_above`, `edges_to_split`: the current position lies on the active edge. The
 upper part ends here; the lower part is pushed as a pending edge with its OWN edge data
 (`push_unlinked`, fix 6bc52f98): a copy of the source record whose `range.start` is the split
